@@ -23,7 +23,8 @@ FaultKinds == {"garbage",          \* random bytes
                "bad_chunking",     \* malformed chunked framing
                "length_mismatch",  \* content-length larger than the body, then EOF
                "handler_panic",    \* a well-formed request whose handler panics
-               "slow_open"}        \* connection left open with a partial request while others are served
+               "slow_open",        \* connection left open with a partial request while others are served
+               "reset_burst"}      \* many connections opened and reset at once, some before the server accepts them
 
 \* is the request on this connection malformed HTTP (as opposed to
 \* well-formed but incomplete, or well-formed with a failing handler)?
